@@ -34,6 +34,7 @@ const c06Policy = `
 path "rec/*" { capabilities = ["read", "create", "update", "list"] }
 path "auth/token/create" { capabilities = ["update"] }
 path "auth/token/create-orphan" { capabilities = ["update", "sudo"] }
+path "ns1/rec/*" { capabilities = ["read", "create", "update", "list"] }
 `
 
 type c06Kind struct {
@@ -47,7 +48,9 @@ func c06Kinds() []c06Kind {
 	// parent (its leases are indexed under the parent token)
 	// ns:* : the same requests inside a child namespace (lease ids carry the namespace id,
 	// lease, index and token records live in the namespace's storage area)
-	for _, n := range []string{"secret", "secret-by-batch", "login", "create", "create-orphan", "create-batch", "create-root", "ns:secret", "ns:login", "ns:create"} {
+	// xns:secret: a token of the ROOT namespace reads a leased secret from a mount of the
+	// child namespace (lease in the child's area, index under the parent's token)
+	for _, n := range []string{"secret", "secret-by-batch", "login", "create", "create-orphan", "create-batch", "create-root", "ns:secret", "ns:login", "ns:create", "xns:secret"} {
 		out = append(out, c06Kind{n, false})
 	}
 	for _, n := range []string{"secret", "login", "create"} {
@@ -104,6 +107,8 @@ func c06Do(s *Sys, tok string, k c06Kind) c06Out {
 	case "ns:secret":
 		req.ClientToken = c06NSTok[s.Opt.NonTxn]
 		req.Operation, req.Path = logical.ReadOperation, "rec/lease/x"
+	case "xns:secret":
+		req.Operation, req.Path = logical.ReadOperation, "ns1/rec/lease/x"
 	case "ns:login":
 		req.ClientToken = ""
 		req.Operation, req.Path, req.Data = logical.UpdateOperation, "auth/ra/login", map[string]interface{}{}
